@@ -38,8 +38,8 @@ def plan(tier, seed):
         units.append(("full", [spec], 1 if tier == "quick" else 2, tier))
     unis["K(n>4)"] = len(big)
     if tier == "quick":
-        f3 = [("idx", 3, i) for i in U.shard(U.F3_indices(True), seed, 32)] + [("idx", 3, i) for i in U.shard(U.catalogue("multi"), seed, 4)] + \
-             [("idx", 3, i) for i in U.shard(U.catalogue("maa"), seed, 512)]
+        f3 = [("idx", 3, i) for i in U.shard(U.F3_indices(True), seed, 64)] + [("idx", 3, i) for i in U.shard(U.catalogue("multi"), seed, 8)] + \
+             [("idx", 3, i) for i in U.shard(U.catalogue("maa"), seed, 1024)]
         fd = 1
     else:
         f3 = [("idx", 3, i) for i in U.shard(U.F3_indices(True), seed, 8)] + [("idx", 3, i) for i in U.catalogue("multi")] + \
